@@ -41,6 +41,7 @@ theorem rfc_length (fs : List (Bytes × Bytes)) (n : Nat) (h : rfc7230Framing fs
 
 theorem rfc_chunked (fs : List (Bytes × Bytes)) (decl : List Bytes) (h : rfc7230Framing fs = .chunked decl) :
     ∃ v, valuesOf fs (str "Transfer-Encoding") = [v] ∧ (trim v).map toLower = str "chunked" ∧
+      clValuesOk (valuesOf fs (str "Content-Length")) = true ∧
       (declaredKeys (valuesOf fs (str "Trailer"))).any forbiddenTrailer = false ∧
       decl = (declaredKeys (valuesOf fs (str "Trailer"))).eraseDups := by
   unfold rfc7230Framing at h
@@ -53,7 +54,7 @@ theorem rfc_chunked (fs : List (Bytes × Bytes)) (decl : List Bytes) (h : rfc723
       · cases h
       · rename_i hf
         cases h
-        exact ⟨v, hte, hv, by simpa using hf, rfl⟩
+        exact ⟨v, hte, hv.1, hv.2, by simpa using hf, rfl⟩
     · cases h
   · cases h
   · split at h
@@ -102,13 +103,13 @@ theorem start_parse (g : Cfg) (m : Msg) (p : P) (rest : Bytes) (acc : List Ev)
     simp only [Start.wf, Bool.and_eq_true, beq_iff_eq, bne_iff_ne] at hwf
     obtain ⟨⟨⟨⟨⟨hpr, hl⟩, hd⟩, _⟩, hr0⟩, hrb⟩ := hwf
     have hst : p.st = .clientProtoBefore := by rw [hI.st]; simp [startSt, hc]
-    have hr : reason = [] ∨ ∃ r0 rs, reason = r0 :: rs ∧ isAlpha r0 = true ∧ ∀ c ∈ rs, c ≠ CR := by
+    have hr : reason = [] ∨ ∃ r0 rs, reason = r0 :: rs ∧ isAlpha r0 = true ∧ ∀ c ∈ rs, c ≠ CR ∧ c ≠ LF := by
       cases reason with
       | nil => exact Or.inl rfl
       | cons r0 rs =>
         right
         simp only [List.all_cons, Bool.and_eq_true, List.all_eq_true] at hrb
-        exact ⟨r0, rs, rfl, hr0, fun c hc => (fieldByte_facts c (hrb.2 c hc)).1⟩
+        exact ⟨r0, rs, rfl, hr0, fun c hc => fieldByte_facts c (hrb.2 c hc)⟩
     simp only [Start.render, Start.events, crlf]
     exact status_line g p [] pr code reason rest acc hst hI.proto hI.status hI.statusCode
       (http1x_shape pr hpr).1 (http1x_shape pr hpr).2 hv hl hd hr
@@ -182,13 +183,13 @@ theorem msg_parse (g : Cfg) (m : Msg) (p : P) (rest : Bytes) (acc : List Ev)
       cases hfr : rfc7230Framing m.fields <;> simp [hfr, bodyMatches] at hbody ⊢
       simpa [bodyMatches] using hbody
     obtain ⟨decl, hfr, hbm⟩ := hfr
-    obtain ⟨v, t1, t2, t3, t4⟩ := rfc_chunked _ _ hfr
+    obtain ⟨v, t1, t2, tcl, t3, t4⟩ := rfc_chunked _ _ hfr
     simp only [bodyMatches, trailersWf, Bool.and_eq_true, List.all_eq_true, decide_eq_true_eq, beq_iff_eq,
       Bool.or_eq_true, bne_iff_ne, ne_eq] at hbm
     obtain ⟨⟨⟨⟨b1, b2⟩, b3⟩, b4⟩, ⟨⟨⟨c1, c2⟩, c3⟩, c4⟩⟩ := hbm
     have e3 := end_chunked g ph tok2 ((Body.chunked cs last ext trs).render ++ rest)
       accH v hst (by rw [hte, t1]) t2
-      (by rw [htr]; exact t3) htl
+      (by rw [hcl]; exact tcl) (by rw [htr]; exact t3) htl
     rw [htr, ← t4] at e3
     obtain ⟨p', hp', e4⟩ := chunked_body g
       { ph with te := [], cl := [], tr := [], chunked := true, contentLength := -1, trailer := decl,
